@@ -82,11 +82,9 @@ class argument_interpreter:
             )
         except RuntimeError as e:
             raise freephil.Sorry(
-                (
-                    "Error interpreting %sargument as parameter definition:\n"
-                    f'  "%s"\n  {e.__class__.__name__}: {e!s}'
-                )
-                % (self.argument_description, arg)
+                "Error interpreting %sargument as parameter definition:\n"
+                '  "%s"\n  %s: %s'
+                % (self.argument_description, arg, e.__class__.__name__, e)
             )
         # a path is a target once, also when a .multiple parameter occurs several times in the master
         target_locators = []
